@@ -66,7 +66,7 @@ theorem newFormatSpec_fits_v3 (precision exponent verb : Int) (ok : Bool)
   have a : Sqroot.outI64 (-3) = false := by decide
   have h1 := outI64_false_of hs.1
   have h2 := outI64_false_of hs.2
-  unfold Gen.V3.newFormatSpecOvf Gen.V3.formatSpecForFOvf Gen.V3.formatSpecForGOvf Gen.V3.formatSpecForEOvf Gen.V3.bigExponentOvf
+  unfold Gen.V3.newFormatSpecOvf Gen.V3.formatSpecForGOvf Gen.V3.bigExponentOvf
   cases ok <;> simp [a, h1, h2]
 
 theorem newFormatSpec_fits_v1 (precision exponent verb : Int) (ok : Bool)
